@@ -444,10 +444,14 @@ def run_c19_builders(rep, tier, seed):
         for choice, default in (([0, 1], 0), ([0, 1, 2], 0)):
             if len(choice) ** (h * w) > (600 if tier == "quick" else 20000):
                 continue
+            king = [(dy, dx) for dy in (-1, 0, 1) for dx in (-1, 0, 1) if (dy, dx) != (0, 0)]
+            radius2 = [(dy, dx) for dy in range(-2, 3) for dx in range(-2, 3) if 0 < abs(dy) + abs(dx) <= 2]
             for symmetry in (False, True):
-                for disallow in (False, True):
+                # disallow_adjacent: off, the four sides, or a caller's own offset list (king moves; everything within distance 2)
+                for disallow in (False, True, king, radius2):
+                    adj4 = [(-1, 0), (1, 0), (0, -1), (0, 1)] if disallow is True else (disallow or [])
                     for use_move in (False, True):
-                        ab = B.ArrayBuilder2D(h, w, choice, default, disallow_adjacent=disallow, symmetry=symmetry, use_move=use_move)
+                        ab = B.ArrayBuilder2D(h, w, choice, default, disallow_adjacent=(list(disallow) if isinstance(disallow, list) else disallow), symmetry=symmetry, use_move=use_move)
                         for flat in itertools.product(choice, repeat=h * w):
                             cur = [list(flat[y * w:(y + 1) * w]) for y in range(h)]
                             if symmetry and not _symmetric(h, w, cur, default):
